@@ -5,7 +5,7 @@ bad=0
 for p in $(python3 -c "import json;print(' '.join(c['property_id'] for c in json.load(open('MANIFEST.json'))['checks']))"); do
   out=$(./check $p 2>&1); rc=$?
   line=$(echo "$out" | tail -1)
-  if [ $rc -ne 0 ] || ! echo "$line" | grep -q "undecided=0 known=0 violations=0"; then echo "PROBLEM $p rc=$rc: $line"; echo "$out" | grep -E "VIOLATION|UNDECIDED|ENGINE" | head -5; bad=1; fi
+  if [ $rc -ne 0 ] || ! echo "$line" | grep -Eq "undecided=0 known=[0-9]+ violations=0"; then echo "PROBLEM $p rc=$rc: $line"; echo "$out" | grep -E "VIOLATION|UNDECIDED|ENGINE" | head -5; bad=1; fi
 done
 [ $bad -eq 0 ] && echo "all checks clean"
 exit $bad
